@@ -154,11 +154,27 @@ fn close_streams() {
     }
 }
 
-fn release_resumers_and_handles(only_resumers: bool) {
+/// Handles that a later phase of the program still uses (waits for, polls, drops): the program has not left them behind.
+fn handles_used_after(prog: &Program, pi: usize) -> Vec<usize> {
+    let mut used = vec![];
+    for ph in prog.phases.iter().skip(pi + 1) {
+        for t in &ph.threads {
+            for op in t {
+                match &op.k {
+                    OpKind::Await { h } | OpKind::PollOnce { h } | OpKind::SyncWait { h } | OpKind::DropHandle { h } | OpKind::Detach { h } => used.push(*h),
+                    _ => {}
+                }
+            }
+        }
+    }
+    used
+}
+
+fn release_resumers_and_handles(only_resumers: bool, keep: &[usize]) {
     let n = w().handles.len();
     for h in 0..n {
         let is_resumer = matches!(w().handles[h], HandleSlot::Resumer(_));
-        if is_resumer || !only_resumers {
+        if is_resumer || (!only_resumers && !keep.contains(&h)) {
             drop_handle(h);
         }
     }
@@ -237,6 +253,8 @@ fn controller(prog: Arc<Program>) {
     let mut hung = false;
     for (pi, phase) in prog.phases.iter().enumerate() {
         w().phase = pi;
+        let ps = ev("phase", pi as i64, 0);
+        w().phase_started.push(ps);
         facts().stage = Some(Stage::Phase(pi));
         if pi > 0 {
             // the previous phase has drained completely: external events start out pending again
@@ -328,11 +346,12 @@ fn controller(prog: Arc<Program>) {
 
         facts().stage = Some(Stage::Drain(pi));
         w().faults_stopped = true;
+        let keep = handles_used_after(&prog, pi);
         let mut rounds = 0;
         let mut last_points: u64 = 0;
         loop {
             stop_faults();
-            release_resumers_and_handles(rounds < 2);
+            release_resumers_and_handles(rounds < 2, &keep);
             if rounds >= 1 {
                 close_streams();
             }
@@ -357,7 +376,7 @@ fn controller(prog: Arc<Program>) {
             // what the program left behind: inputs end, unread handles are dropped
             close_streams();
             kernel::await_quiescence();
-            release_resumers_and_handles(false);
+            release_resumers_and_handles(false, &keep);
             kernel::await_quiescence();
             stop_faults();
             kernel::await_quiescence();
